@@ -14,7 +14,7 @@ import (
 // Plan is one input.
 type Plan struct {
 	Input string `json:"input"`
-	Kind  string `json:"kind"` // valid | expr | mutated | truncated | raw
+	Kind  string `json:"kind"` // valid | expr | deep | mutated | truncated | raw
 }
 
 // ---------------------------------------------------------------------------
@@ -196,7 +196,24 @@ func GenInput(r *simrt.RNG, tier string) Plan {
 	switch x := r.Intn(100); {
 	case x < 22:
 		return Plan{validProgram(r, tier), "valid"}
-	case x < 32:
+	case x < 25:
+		// deep nesting in one construct: parsing must stay (about) linear in the depth
+		d := 20 + r.Intn(40)
+		switch r.Intn(6) {
+		case 0:
+			return Plan{"v := " + strings.Repeat("{\"a\": ", d) + "1" + strings.Repeat("}", d), "deep"}
+		case 1:
+			return Plan{"v := " + strings.Repeat("[", d) + "1" + strings.Repeat("]", d), "deep"}
+		case 2:
+			return Plan{"v := " + strings.Repeat("(", d) + "1" + strings.Repeat(")", d), "deep"}
+		case 3:
+			return Plan{"v := " + strings.Repeat("{\"a\": [", d/2) + "1" + strings.Repeat("]}", d/2), "deep"}
+		case 4:
+			return Plan{strings.Repeat("if a {\n", d/2) + "x := 1\n" + strings.Repeat("}\n", d/2), "deep"}
+		default:
+			return Plan{"v := " + strings.Repeat("f(", d) + "1" + strings.Repeat(")", d), "deep"}
+		}
+	case x < 35:
 		// expression forms in every expression position, often with one malformed map literal
 		n := 1 + r.Intn(3)
 		var parts []string
@@ -204,7 +221,7 @@ func GenInput(r *simrt.RNG, tier string) Plan {
 			parts = append(parts, exprStatement(r))
 		}
 		return Plan{strings.Join(parts, "\n"), "expr"}
-	case x < 60:
+	case x < 62:
 		src := validProgram(r, tier)
 		toks := parser.LexToList("gen", src)
 		if len(toks) < 3 {
@@ -222,7 +239,7 @@ func GenInput(r *simrt.RNG, tier string) Plan {
 		seg := func(i int) string { return src[cuts[i]:cuts[i+1]] }
 		n := len(cuts) - 1
 		i := r.Intn(n)
-		switch r.Intn(9) {
+		switch r.Intn(10) {
 		case 6: // truncate at an arbitrary byte
 			return Plan{src[:r.Intn(len(src)+1)], "truncated"}
 		case 7: // delete one byte
@@ -243,6 +260,8 @@ func GenInput(r *simrt.RNG, tier string) Plan {
 				return Plan{src[:cuts[i]] + seg(i+1) + seg(i) + src[cuts[i+2]:], "mutated"}
 			}
 			return Plan{src[:cuts[i]], "truncated"}
+		case 5: // a comment at a token boundary (comments may stand between any two tokens)
+			return Plan{src[:cuts[i]] + []string{"/* c */", " /* c */ ", "# c\n", "/**/"}[r.Intn(4)] + src[cuts[i]:], "mutated"}
 		case 3: // stray closer / opener / newline
 			return Plan{src[:cuts[i]] + []string{"}", "{", ")", "(", "]", "[", "\n", ","}[r.Intn(8)] + src[cuts[i]:], "mutated"}
 		case 4: // replace a token by a random fragment
